@@ -47,7 +47,12 @@ impl RRTPlanner {
 
         let collision_free = |joint_angles: &[f64]| -> bool {
             let joints = &<Joints>::try_from(joint_angles).expect("Cannot convert vector to array");
-            !kinematics.collides(joints)
+            // Relocation must stay within the joint limits (the limits are where the samples come from)
+            let within_limits = kinematics
+                .constraints()
+                .as_ref()
+                .map_or(true, |constraints| constraints.compliant(joints));
+            within_limits && !kinematics.collides(joints)
         };
 
         // Constraint compliant random joint configuration generator.
